@@ -48,7 +48,9 @@ def plan(tier):
     thorough = tier == "thorough"
     # 1. cheap and essential: all 2^16-functions, reference self-test, information-only conversions, sanitizer sub-alphabet
     jobs += [("unary", ["--mode", "unary"], both), ("nanfam", ["--mode", "nanfam"], both), ("selftest", ["--mode", "selftest"], both), ("info", ["--mode", "info"], ("sw",))]
-    jobs += [("san-nanfam", ["--mode", "nanfam"], ("san",)),
+    n = 8
+    jobs += [("mixed-%d" % k, ["--mode", "mixed", "--shard", str(k), str(n)], both) for k in range(n)]
+    jobs += [("san-nanfam", ["--mode", "nanfam"], ("san",)), ("san-mixed", ["--mode", "mixed", "--set", "s"], ("san",)),
              ("san-unary", ["--mode", "unary", "--set", "s"], ("san",)),
              ("san-pairs", ["--mode", "pairs", "--set", "s"], ("san",)),
              ("san-fma", ["--mode", "fma", "--alpha", "s"], ("san",)),
@@ -184,6 +186,9 @@ def locate_path_difference(ctx, bins, args, stream, sub):
         else:
             cls = ",".join(hclass(int(o, 16)) for o in ops)
         fn = "fma" if stream == "fma_derived" else stream
+        if stream == "mixed":
+            # one digest stream for the whole mixed-operand family: the function is the one that was executing
+            fn = stream = nth[0]["fn"]
         sig = "C08/path/%s%s/%s/sw-differs-from-f16c" % (stream, sfx, cls)
         msg = ("%s(%s)%s: the software build returns %s, the F16C build returns %s (canonical bits; NaN results are compared as NaN); "
                "results must be bit-identical whether or not the F16C path is compiled in" % (fn, ", ".join(ops), " under fesetround(%s)" % mode if mode else "", vsw, vhw))
@@ -288,7 +293,7 @@ def run(ctx):
     ctx.stats["evaluations"] = sum(v for k, v in ctx.stats.items() if k.startswith("evaluations_"))
     ctx.stats["distinct_nontrivial"] = ctx.stats.get("nontrivial_sw", 0)   # default mode, software build: every case once
     ctx.stats["evaluations_under_directed_rounding_modes"] = sum(v for k, v in ctx.stats.items() if k.startswith("evaluations_") and "[FE_" in k)
-    order = ["float2half", "pair", "fma", "sqrt", "nanfam"]
+    order = ["float2half", "pair", "fma", "sqrt", "nanfam", "mixed"]
     i = 0
     while len(ctx.samples) < 12 and any(samples.get(k) for k in order):
         k = order[i % len(order)]
@@ -304,7 +309,10 @@ def run(ctx):
            "+ - * /, == != < > <= >=, copysign and hash-of-equal-values on the pair set {(a,b): a in A512, b any} u {a in A4096, b in A4096} u {a any, b in A512} (A4096 = sign x every exponent field x 64 boundary mantissas, A512 = sign x every exponent x {0,1,2,0x1FF,0x200,0x201,0x3FE,0x3FF}; both contain +-0, subnormals, +-inf, quiet and signalling NaNs); ")
         + ("fma on all triples over the 1024-value alphabet (sign x every exponent x 16 mantissas) and, for every pair (x,y) with x or y in A4096, on the 6 tie-breaking z {+-0, +-2^-24, +-2^-14} and the up to 8 z within 2 ulp of -round(x*y) / 1 ulp of +round(x*y) (massive cancellation). " if thorough else
            "fma on all triples over A512 and, for every pair (x,y) in A4096^2 with x or y in A512, on the 6 tie-breaking z {+-0, +-2^-24, +-2^-14} and the up to 8 z within 2 ulp of -round(x*y) / 1 ulp of +round(x*y) (massive cancellation). ")
-        + "NaN/infinity boundary family (judged: NaN stays a NaN with its sign, infinity stays that infinity): for double->half (half_cast<half>(double), half_cast<half,round_to_nearest>(double), half(double), operator=(double)) and float->half (constructor, operator=, half_cast), "
+        + "Mixed operands (operator templates): for T in {float, double, long double, int, long, long long, unsigned, unsigned long, short, unsigned short, signed char, unsigned char, char, bool, half}, ALL 2^16 halves a x every t of T's alphabet "
+        "(the values of a 49-value list - +-0, +-2^-24, +-largest subnormal, +-2^-14, +-0.5, +-1, +-(1+2^-10), +-2, +-3, +-0x3555, +-65504, +-inf, quiet/signalling NaN, +-{3,7,127,128,255,256,1024,2047,2048,32768,65504} - that T can hold exactly): "
+        "a+t, t+a, a-t, t-a, a*t, t*a, a/t, t/a, a+=t, a-=t, a*=t, a/=t judged bit for bit (sign of zero included, NaN as NaN) against the reference operation on (a, half(t)), and the six comparisons in both operand orders against the float comparison of the converted values; software and F16C build. "
+        "NaN/infinity boundary family (judged: NaN stays a NaN with its sign, infinity stays that infinity): for double->half (half_cast<half>(double), half_cast<half,round_to_nearest>(double), half(double), operator=(double)) and float->half (constructor, operator=, half_cast), "
         "both signs x exponent all ones x {0, every single mantissa bit, every pair of mantissa bits, low-word-only / high-word-only / mixed payloads with the quiet bit off and on, all-ones patterns}: 3244 doubles and 588 floats, in every build and under every rounding mode. "
         "Dynamic rounding mode (owned by the harness): the complete float->half sweep, all the 2^16-functions, and + - * / , comparisons, copysign on the quick pair set and fma on A512^3 and the quick derived family are repeated in both paths "
         "(builds with -frounding-math) after fesetround(FE_UPWARD), FE_DOWNWARD and FE_TOWARDZERO (set once per shard, verified to be in effect on float and double arithmetic, restored at the end); the expected bits are the same round-to-nearest-even bits and the sw/F16C digests must agree under each mode. "
@@ -317,7 +325,7 @@ def run(ctx):
         "double->half: judged only on the NaN/infinity boundary family (NaN-to-NaN with the sign kept, infinity preserved); the ROUNDING of finite doubles and integer<->half conversions are enumerated on boundary values and reported as notes only - the statement does not claim them and the converting constructor documents double rounding through float",
         "fma: the 2^48 triples are not exhausted; the claim is exactly the two stated families",
         "dynamic rounding mode: the reference is integer arithmetic and does not depend on it; the double-based self-test and the information-only conversions run under FE_TONEAREST only; the shards under a directed mode use separate builds compiled with -frounding-math",
-        "exception flags/errno (HALF_ERRHANDLING_*), rounding styles other than the default round-to-nearest, the mixed half/arithmetic-type operator templates, compound assignment and stream I/O are outside this check",
+        "exception flags/errno (HALF_ERRHANDLING_*), rounding styles other than the default round-to-nearest, ++/--, literals and stream I/O are outside this check; mixed-operand operators and compound assignment are judged only for T values that binary16 represents exactly (the T -> half conversion of other values is the float -> half sweep / information-only double rounding)",
         "one toolchain: g++ 12, x86-64, -O2 (and -O1 under ASan)",
     ]
 
